@@ -11,7 +11,7 @@ from typing_extensions import Type
 
 import yaml
 
-from yatiml.exceptions import RecognitionError
+from yatiml.exceptions import RecognitionError, SeasoningError
 from yatiml.helpers import Node, UnknownNode
 from yatiml.introspection import class_subobjects
 from yatiml.irecognizer import IRecognizer, RecError, RecResult, REC_OK
@@ -270,7 +270,13 @@ class Recognizer(IRecognizer):
                     # try exact match first, dashes if that doesn't match
                     for name in [attr_name, attr_name.replace('_', '-')]:
                         if cnode.has_attribute(name):
-                            subnode = cnode.get_attribute(name)
+                            try:
+                                subnode = cnode.get_attribute(name)
+                            except SeasoningError:
+                                message = (
+                                        '{}Key "{}" was found multiple'
+                                        ' times').format(loc_str, name)
+                                return set(), (message, [])
                             recognized_types, result = self.recognize(
                                 subnode.yaml_node, type_)
                             if len(recognized_types) == 0:
@@ -286,7 +292,9 @@ class Recognizer(IRecognizer):
                             break
                     else:
                         if required:
-                            keys = [kn.value for kn, _ in node.value]
+                            keys = [
+                                    kn.value for kn, _ in node.value
+                                    if isinstance(kn, yaml.ScalarNode)]
                             message = diagnose_missing_key(
                                     attr_name, keys, expected_type)
                             message = '{}{}'.format(loc_str, message)
